@@ -21,7 +21,8 @@ REAL_VS_STUB = {'real': ['ak.conn_http', 'ak.mcaller_http', 'ak.mcaller (instrum
 
 ASSUMPTIONS = ["pre-emption is possible before every bytecode instruction of ak.conn_http / ak.mcaller_http / ak.mcaller and nowhere inside stdlib calls (a superset of CPython's switch points for the repository code, atomic for stdlib)", 'the sequence number of an id is its last dash-separated field', 'a request counts when it reaches urllib.request.OpenerDirector.open', 'sampling: a clean batch is evidence over the explored schedules, not a proof']
 
-RULE = ("each run = one seeded world (1-2 underlying connections, 2-6 wrappers incl. auth/prefix/"
+RULE = ("each run = one seeded world (rarely preceded by ~10000 sequential warm-up requests so that the 4-digit "
+        "part of the ids wraps around; 1-2 underlying connections, 2-6 wrappers incl. auth/prefix/"
         "method-caller layers, 2-4 threads x 1-4 requests, post-send transport faults) executed under one "
         "seeded schedule (policy drawn per run: uniform p, targeted, quantum, PCT) with a pre-emption point "
         "before every bytecode instruction of ak.conn_http, ak.mcaller_http, ak.mcaller. A run is "
@@ -118,6 +119,11 @@ def generate(rng, tier):
             ops.append(op)
             k += 1
     rng.shuffle(ops)
+    if rng.random() < (0.004 if big else 0.0015):
+        # rarely: a long sequential warm-up through one wrapper, so that the concurrent part runs across the
+        # point where the 4-digit part of the id wraps around (10000 requests)
+        ops.insert(0, {"op": "burst", "k": k, "t": 0, "w": rng.randrange(nw), "n": 10000 - rng.randint(0, 3),
+                       "verb": "get", "path": "/warm", "own_id": None, "net": {"lat": 0, "body": ""}})
     est = len(ops) * 420
     return {"world": world, "nthreads": nthreads, "ops": ops,
             "policy": gen_policy(rng, est)}
@@ -200,7 +206,7 @@ def do_request(objs, spec, op):
     hdrs = dict(op.get("hdr") or {})
     if op.get("own_id") is not None:
         hdrs["X-Request-ID"] = op["own_id"]
-    kw = {"headers": hdrs} if (hdrs or op["k"] % 2 == 0) else {}
+    kw = {"headers": hdrs} if (hdrs or (isinstance(op["k"], int) and op["k"] % 2 == 0)) else {}
     if spec["wrappers"][op["w"] % len(objs)]["kind"].startswith("mcaller"):
         return w.simcall(op["verb"], op["path"], kw)
     return getattr(w, op["verb"])(op["path"], **kw)
@@ -216,10 +222,26 @@ def execute(trace, rng):
     tr.sim = sim
     nthreads = trace["nthreads"]
     per_thread = [[] for _ in range(nthreads)]
-    ops = [dict(op) for op in trace["ops"]]
-    for op in ops:
-        per_thread[op["t"] % nthreads].append(op)
+    ops = []
     outcomes = {}
+    for op in trace["ops"]:
+        if op.get("op") == "burst":
+            # executed before the threads start, in the scheduler thread (no pre-emption, no latency)
+            for j in range(op["n"]):
+                sub = {"op": "req", "k": f"{op['k']}.{j}", "t": 0, "w": op["w"], "verb": op["verb"], "path": op["path"],
+                       "own_id": None, "net": {"lat": 0, "body": ""}}
+                tr.cur_op_fallback = sub
+                try:
+                    do_request(objs, spec, sub)
+                    outcomes[sub["k"]] = ("ok", "")
+                except Exception as e:
+                    outcomes[sub["k"]] = ("exc", type(e).__name__)
+                tr.cur_op_fallback = None
+                ops.append(sub)
+            continue
+        op = dict(op)
+        ops.append(op)
+        per_thread[op["t"] % nthreads].append(op)
 
     def body(my_ops):
         def run(t):
@@ -236,7 +258,7 @@ def execute(trace, rng):
         sim.spawn(body(my_ops))
     try:
         sim.run()
-        for k in sorted(outcomes):
+        for k in sorted(outcomes, key=str):
             log.add("ret", k, outcomes[k][0], outcomes[k][1] if outcomes[k][0] == "exc" else json.dumps(outcomes[k][1], sort_keys=True, default=str))
         check(spec, ops, tr, outcomes)
         status = {"status": OK}
